@@ -26,7 +26,9 @@ def run(fid, cj, matcher):
             out = mod.evaluate(Case.from_json(c), "quick")
         except Exception as e:
             res[pid] = f"error {type(e).__name__}"; continue
-        if out.status == "fail":
+        if getattr(out, "known", None):
+            res[pid] = f"FAIL (known: {sorted(set(out.known))}) matched=True"
+        elif out.status == "fail":
             ok = triggers.matches(matcher, c, out.failure) if matcher else None
             res[pid] = f"FAIL kind={out.failure.get('kind')} pass={(out.failure.get('attribution') or {}).get('pass')} matched={ok}"
         else:
